@@ -33,7 +33,7 @@ def p3_of(ps):
 
 
 def enc_strings(enc):
-    return ct.lst([ct.pair(p3_of(w.paulis), ct.qi(w.weight)) for w in enc.pstrings])
+    return ct.lst([ct.pair(p3_of(w.paulis), base.qi(w.weight)) for w in enc.pstrings])
 
 
 def enc_lad_impl(W, L, parity):
@@ -214,7 +214,7 @@ def encoder_run(ctx, parity):
         ctx.count("strings<=%d" % (1 if len(enc.pstrings) <= 1 else 4 if len(enc.pstrings) <= 4 else 16 if len(enc.pstrings) <= 16 else 9999))
         add("CEnc %s %s %s %s" % (ct.b(parity), ct.nat(L), cop(terms), enc_strings(enc)), dict(d, op="encode"), nt)
         if E is not None and L <= 4 and len(enc.pstrings) <= 40 and rng.random() < 0.35:
-            add("CEncMat %s %s %s %s" % (ct.b(parity), ct.nat(L), cop(terms), ct.qimat(E)), dict(d, op="encode.as_matrix"), nt)
+            add("CEncMat %s %s %s %s" % (ct.b(parity), ct.nat(L), cop(terms), base.qimat(E)), dict(d, op="encode.as_matrix"), nt)
 
     # ------------------------------------------------------------ float sweep (oracle only): rounding and pruning
     nfl = 300 if ctx.thorough else 60
